@@ -195,11 +195,19 @@ def _reproduces(engine_cls, case, sig, ctx, **kw):
 
 def ddmin(engine_cls, case, sig, ctx, budget=300, **kw):
     """Delta-debug the trace (drop chunks), keeping candidates that reproduce the same signature."""
+    import time as _time
+
     trace = [list(s) if isinstance(s, (list, tuple)) else s for s in case["trace"]]
     config = case["config"]
     used = [0]
+    # shrinking is also bounded by wall clock (it only affects how small the replay gets, never a verdict): a violation whose
+    # reproduction needs a long quiet phase (e.g. a livelocked rejoin loop) would otherwise cost minutes per candidate
+    t_end = _time.time() + (90.0 if ctx.tier == "quick" else 900.0)
 
     def ok(tr):
+        if _time.time() > t_end:
+            used[0] = budget
+            return False
         used[0] += 1
         return _reproduces(engine_cls, {"engine": case.get("engine"), "config": config, "trace": tr}, sig, ctx, **kw)
 
